@@ -155,20 +155,32 @@ def correspond(ctx):
                         if not ctx.thorough and len(svs) > 8:
                             svs = [svs[i] for i in sorted(rng.choice(len(svs), 8, replace=False))]
                         variants += [(False, kwv) for kwv in svs]
+                        # degenerate data (no peaks at all; constant): branches that ordinary data never reach
+                        variants += [(False, dict(kw0, __data__='smooth')), (False, dict(kw0, __data__='constant'))]
                     for raising, kwv in variants:
                         activate = kwv is not None
+                        dkind = (kwv or {}).get('__data__')
+                        kwv = None if kwv is None else {k: v for k, v in kwv.items() if k != '__data__'}
                         act = {k: v for k, v in (kwv or {}).items() if kw0.get(k, '<absent>') != v}
+                        if dkind:
+                            act['data'] = dkind
                         objs = {}
                         kw = dict(kw0)
                         if activate:
                             kw = dict(kwv)
                         solver = int(rng.integers(1, 5)) if not activate else (3 + int(rng.integers(0, 2)))
-                        objs['data'] = layout(data0, lay if not (two_d and lay in ('column', 'row')) else 'contiguous', rng)
+                        dsrc = data0
+                        if dkind == 'smooth':
+                            dsrc = (np.linspace(2, 5, Y.shape[-1]) + 0.01 * np.cos(np.arange(Y.shape[-1]))) * np.ones_like(Y)
+                            dsrc = np.array([dsrc, dsrc * 1.1]) if stack else dsrc
+                        elif dkind == 'constant':
+                            dsrc = np.full(np.shape(data0), 3.0)
+                        objs['data'] = layout(dsrc, lay if not (two_d and lay in ('column', 'row')) else 'contiguous', rng)
                         xin = layout(x, lay if lay in ('contiguous', 'strided', 'readonly', 'list') else 'contiguous', rng)
                         objs['x'] = xin
                         if two_d:
                             objs['z'] = layout(z, lay if lay in ('contiguous', 'strided', 'readonly', 'list') else 'contiguous', rng)
-                        for arg in optional:
+                        for arg in (optional if not dkind else ()):      # degenerate data: no user weights, so that the method's own mask decides
                             shape = Y.shape
                             w = np.round(rng.uniform(0.3, 1, shape) * 32) / 32
                             if e['module'] == 'classification':
